@@ -102,14 +102,14 @@ theorem grid_exists (na : List Bool) (f : Bool) (gs : Nat) (limit : Rat)
   | succ n =>
     refine ⟨n + 1, ((lattice na f (n + 1)).take gs).map
       (fun v => lambdaOf rows (scaleCoefs limit (n + 1) v)), ?_, by omega, hn, ?_⟩
-    · simp only [grid, hn]
+    · simp only [grid_def, hn]
     · simp only [List.length_map, List.length_take]; omega
 
 theorem grid_length (na : List Bool) (f : Bool) (gs : Nat) (limit : Rat)
     (rows : List (List Rat × List Rat)) (n : Nat) (g : List (List Rat))
     (hg : grid na f gs limit rows = .ok (n, g)) :
     g.length = min gs (lattice na f n).length ∧ nUnits na f gs = some n ∧ 1 ≤ n := by
-  unfold grid at hg
+  rw [grid_def] at hg
   split at hg
   · cases hg
   · cases hg
@@ -122,7 +122,7 @@ theorem grid_mem (na : List Bool) (f : Bool) (gs : Nat) (limit : Rat)
     (rows : List (List Rat × List Rat)) (n : Nat) (g : List (List Rat))
     (hg : grid na f gs limit rows = .ok (n, g)) (lam : List Rat) (hl : lam ∈ g) :
     1 ≤ n ∧ ∃ v ∈ lattice na f n, lam = lambdaOf rows (scaleCoefs limit n v) := by
-  unfold grid at hg
+  rw [grid_def] at hg
   split at hg
   · cases hg
   · cases hg
@@ -157,7 +157,7 @@ theorem grid_l1_le_limit (na : List Bool) (f : Bool) (gs : Nat) (limit : Rat) (h
   have hlat := lattice_l1 na f n v hv
   have hnpos : (0 : Rat) < n := by exact_mod_cast hn
   have hs : 0 ≤ limit / (n : Rat) := div_nonneg hlim (le_of_lt hnpos)
-  have h1 := lambdaOf_sum_le hb (scaleCoefs limit n v) (by simp [scaleCoefs, hlat.1])
+  have h1 := lambdaOf_sum_le hb (scaleCoefs limit n v) (by simp [scaleCoefs_def, hlat.1])
   rw [scale_parts_sum (limit / n) hs n limit rfl v] at h1
   have h2 : (l1 v : Rat) ≤ n := by exact_mod_cast hlat.2.1
   calc (lambdaOf rows (scaleCoefs limit n v)).sum ≤ (l1 v : Rat) * (limit / n) := h1
@@ -170,7 +170,7 @@ theorem grid_distinct (na : List Bool) (f : Bool) (gs : Nat) (limit : Rat) (hlim
     (rows : List (List Rat × List Rat)) (n : Nat) (g : List (List Rat))
     (hu : unitBasis na rows = true)
     (hg : grid na f gs limit rows = .ok (n, g)) : g.Nodup := by
-  unfold grid at hg
+  rw [grid_def] at hg
   split at hg
   · cases hg
   · cases hg
@@ -203,7 +203,7 @@ theorem argminFirst_spec (l : List Rat) (i : Nat) (h : argminFirst l = some i) :
   cases l with
   | nil => simp [argminFirst] at h
   | cons x xs =>
-    simp only [argminFirst, Option.some.injEq] at h
+    simp only [argminFirst_cons, Option.some.injEq] at h
     have hmem := minL_mem x xs
     have hi : i < (x :: xs).length := by rw [← h]; exact List.idxOf_lt_length_iff.mpr hmem
     have hval : (x :: xs)[i] = minL x xs := by
@@ -255,7 +255,7 @@ theorem maxL_spec : ∀ (x : Rat) (xs : List Rat), maxL x xs ∈ x :: xs ∧ ∀
 /-- the trade-off loss of one predictor -/
 theorem tradeoff_spec (cw obj g : Rat) (gs : List Rat) :
     ∃ m, tradeoff cw obj (g :: gs) = some ((1 - cw) * obj + cw * m) ∧ m ∈ g :: gs ∧ ∀ y ∈ g :: gs, y ≤ m :=
-  ⟨maxL g gs, rfl, (maxL_spec g gs).1, (maxL_spec g gs).2⟩
+  ⟨maxL g gs, tradeoff_cons cw obj g gs, (maxL_spec g gs).1, (maxL_spec g gs).2⟩
 
 /-- Best response, part 1: the weighted 0/1 error of a labeling `h` on the data relabelled
     (`1[w>0]`) and reweighted (`|w|`) by GridSearch equals `Σ max(w_i,0) − Σ w_i h_i`. -/
